@@ -376,7 +376,22 @@ func Run(r *hk.Run) {
 		// mutations
 		for k := 0; k < 4; k++ {
 			m := []byte(s)
-			switch rnd.Intn(7) {
+			switch rnd.Intn(9) {
+			case 7, 8:
+				// upper-case ONE hex digit of the digest (full-length digests of supported hashes included):
+				// must be rejected – only lower-case hex is a well-formed ref
+				if i := strings.IndexByte(s, '-'); i >= 0 {
+					var idx []int
+					for j := i + 1; j < len(m); j++ {
+						if m[j] >= 'a' && m[j] <= 'f' {
+							idx = append(idx, j)
+						}
+					}
+					if len(idx) > 0 {
+						j := idx[rnd.Intn(len(idx))]
+						m[j] -= 'a' - 'A'
+					}
+				}
 			case 0:
 				m = m[:rnd.Intn(len(m))]
 			case 1:
